@@ -103,6 +103,24 @@ theorem reject_only_errors_are_rej (doc : Forest) :
     · exact .inl (List.mem_append_left _ hd)
     · exact .inr (rejectAll_diags _ d hd)
 
+/-- **Reject mode refuses every binding the constant pass left unevaluated, constant or not**: a top-level property
+    whose cell was never initialised (a pseudo property excluded from the generic pass and picked up by nobody, e.g.
+    `separator` of an action that has other bindings) is not an evaluated constant, so reject mode reports it — exactly
+    the bindings for which generate mode emits update code. -/
+theorem unevaluated_binding_refused_by_reject (doc : Forest) :
+    ∀ p ∈ (run .reject doc).objects, ∀ e ∈ p.props, e.evalConst = false → (run .reject doc).accepted = false := by
+  intro p hp e he hec
+  cases h : valid doc
+  · rw [(run_invalid doc h .reject).2.2.2.1] at hp
+    simp at hp
+  · rw [run_reject doc h] at hp ⊢
+    have hne : rejectAll (place .root doc).1 ≠ [] := by
+      intro hnil
+      have hall := (rejectAll_entries_nil (place .root doc).1 hnil) p hp e he
+      rw [hall] at hec
+      exact Bool.noConfusion hec
+    simp [Result.accepted, hne]
+
 /-- **(e) A header is produced only by `generate`**, and then whenever a form was built. -/
 theorem header_only_generate (m : Mode) (doc : Forest) :
     (run m doc).support.isSome = true ↔ (m = .generate ∧ (run m doc).built = true) := by
@@ -149,6 +167,20 @@ example : let doc : Forest := .cons { oid := 0, isWidget := true
     (run .omit doc).diags = [⟨10, .cxxRetType⟩] ∧ (run .generate doc).diags = [⟨10, .cxxRetType⟩] ∧
     (run .omit doc).support = none ∧ (run .omit doc).accepted = false := by
   decide
+
+/-- `QAction { separator: true; text: "x" }` -/
+private def sepWithText : Forest :=
+  .cons { oid := 0, isWidget := true }
+    (.cons { oid := 1, isAction := true
+             entries := [.leaf { id := 10, name := "separator".toList, const := some (.ok 1) },
+                         .leaf { id := 11, name := "text".toList, const := some (.ok 7) }] } .nil .nil) .nil
+
+/-- `separator` is constant but excluded from the .ui and never evaluated: generate mode emits a binding for it, reject
+    mode refuses the document -/
+example : (run .generate sepWithText).accepted = true ∧
+    (run .generate sepWithText).support.map (·.bindings) = some [10] ∧
+    (run .reject sepWithText).accepted = false ∧ (run .reject sepWithText).diags = [⟨10, .rejDynamic⟩] := by
+  and_intros <;> decide
 
 /-- a callback alone makes `reject` refuse, with an empty binding list -/
 example : let doc : Forest := .cons { oid := 0, isWidget := true, callbacks := [{ id := 20 }] } .nil .nil
